@@ -315,6 +315,15 @@ class Interp:
             if out is not None:
                 al = frozenset(a + ".value" for a in base.alias)
                 fl = set(out.flags)
+                # provenance of the payload: which value kinds it may come from, and whether program-controlled
+                for t in base.types:
+                    fl.add("payload:" + t)
+                if "prog" in base.flags:
+                    fl.add("progpayload")
+                if "fresh" in base.flags:
+                    fl.add("fresh")
+                else:
+                    fl.discard("fresh")
                 return out.with_(alias=al, flags=frozenset(fl))
             return TOP
         ft = self.engine.field_type(base, e.attr)
@@ -1277,13 +1286,14 @@ class Engine:
         if ts <= {"dict"}:
             if name == "get":
                 return join(recv.elem, NONE) if recv.elem is not None and len(args) < 2 else TOP
+            prov = frozenset(f for f in recv.flags if f.startswith("payload:") or f == "progpayload")
             if name == "keys":
-                return AV({"dictview"}, elem=recv.keyelem, flags={"dictkeys"})
+                return AV({"dictview"}, elem=recv.keyelem, flags=prov | {"dictkeys"})
             if name == "values":
-                return AV({"dictview"}, elem=recv.elem, flags={"dictvalues"})
+                return AV({"dictview"}, elem=recv.elem, flags=prov | {"dictvalues"})
             if name == "items":
                 el = AV({"tuple"}, items=[recv.keyelem or TOP, recv.elem or TOP])
-                return AV({"dictview"}, elem=el, flags={"dictitems"})
+                return AV({"dictview"}, elem=el, flags=prov | {"dictitems"})
             if name in ("update", "clear"):
                 return NONE
             if name == "copy":
